@@ -7,6 +7,7 @@
                        -> ACC B <main>:<items>;... R <t>=<res>,... I <keys> | REJECT <i>
    K <bits>            SetReferrersCapability sequence -> K <state>/<err>,...
    X <sg> <init> <changes> <ev> ...  exchanges of an end-to-end run on one tag -> ACC R .. I .. | REJECT <i>
+   L <art> <list|none>  Referrers() by tag schema on the final index -> L <keys>
    T <d:m:z,...>       buildReferrersTag on subject descriptors (digest:mediatype:size, interned) -> T <class,...>
    D <kind> <art> <cfg>  indexReferrersForPush artifact type -> D <type>
    E <n>               end-to-end run (judged by the oracle)   -> E <n>
@@ -95,6 +96,10 @@ let () =
       let rs = set_caps CapUnknown bs in
       Printf.printf "%s K %s\n" id
         (String.concat "," (List.map (fun (s, e) -> Printf.sprintf "%d/%d" (cap_num s) (if e then 1 else 0)) rs))
+    | [id; "L"; a; l] ->
+      let r = if l = "none" then None else Some (parse_list l) in
+      let out = list_referrers r (n_of_int (int_of_string a)) in
+      Printf.printf "%s L %s\n" id (if out = [] then "-" else String.concat "," (List.map (fun d -> string_of_int (int_of_n d.dkey)) out))
     | [id; "T"; l] ->
       let ds = List.map (fun x -> match String.split_on_char ':' x with
           | [d; m; z] -> { s_mt = n_of_int (int_of_string m); s_digest = n_of_int (int_of_string d); s_size = n_of_int (int_of_string z) }
